@@ -67,7 +67,7 @@ CHECKS = {
    design="DESIGN.md §6 C03"),
  "C01": dict(
    category="proof",
-   text="Coq: every continuous sampler (20 families, f32 and f64) is modelled as a decision tree over exact real expressions, one node per rounded float operation of the source; for the six single-draw inverse-CDF families the model is proved to consume exactly one word and the event equivalence Q(u) <= x <-> u <= F(x) (resp. 1-F(x) <= u) is proved for all parameters, which is the documented law; the interval evaluator used to run the models is proved sound (evalI_sound). Every model is tied to the code pathwise: on identical parameter bits and RNG words the crate's value must lie in the rounding-inflated enclosure of the model and consume the same number of words (no statistics). Rejection samplers (Gamma, Beta, ziggurat primitives via C06, ...) have their models tied the same way; their density identities are proved only where listed in DESIGN.md (partial).",
+   text="Coq: every continuous sampler (20 families, f32 and f64) is modelled as a decision tree over exact real expressions, one node per rounded float operation of the source; for the six single-draw inverse-CDF families the model is proved to consume exactly one word and the event equivalence Q(u) <= x <-> u <= F(x) (resp. 1-F(x) <= u) is proved for all parameters, which is the documented law; the interval evaluator used to run the models is proved sound (evalI_sound). Every model is tied to the code pathwise: on identical parameter bits and RNG words the crate's value must lie in the rounding-inflated enclosure of the model and consume the same number of words (no statistics). Rejection samplers (Gamma, Beta, ziggurat primitives via C06, ...) have their models tied the same way; on the EXECUTABLE models of the Marsaglia-Tsang loop and of Cheng's BB loop a proposal is returned exactly when it lies in the exact acceptance event - soundness for every fuel and word list (also when accepted by a quick test), completeness per iteration (Props/C01_model.v) - and the accepted-density identities, envelopes and squeezes behind those events are proved as real-number theorems (Props/C01_identities.v, incl. the kernel identity of the shape < 1 boost); what remains cited only is listed in DESIGN.md (partial).",
    note="Trusted: Coq kernel, Coq-Interval's verified operations, stdlib real axioms; hand models tied by pathwise correspondence + regenerated fingerprints; libm within per-operation budgets; probability bridge B1-B4 not formalised.",
    technique="Coq proof (event equivalences for inverse-CDF families, sound interval evaluation) + pathwise model/implementation correspondence",
    design="DESIGN.md §6 C01"),
